@@ -22,6 +22,9 @@ CHECKS = {
  "C10": dict(engine="H+I", tech=H+"; "+I, ref="DESIGN.md §3 C10",
    text="Every sequence of typed writes (length <= 3 quick / 4 thorough over ~95 boundary-valued items) read back through three read paths; every reader method on all byte strings up to length 5/6 over {00,01,7f,80,ff}, every truncation of every valid encoding and oversized varints/length prefixes against reference decoders; stream reader vs buffer reader under every chunking of inputs up to 12/14 bytes with both legal end-of-stream styles; in-place rewrites against a byte-slice model.",
    note="reference decoders written in the harness; stream-reader string reads with announced length > 64 KiB are not executed (allocation size, outside the statement)"),
+ "C08": dict(engine="I", tech=I, ref="DESIGN.md §3 C08",
+   text="64-bit layer: every word with popcount <=2 or >=62, every interval, every 16-bit lane pattern and complement, through all 10 iterators and 8 GetN forms for n in {-1,0,1,2,l-1,l,l+1,64,65}, with the sparse threshold set to popcount-1/popcount/popcount+1/9 so both traversal branches run on every word. 1024-bit layer: subsets of a 12-index boundary alphabet with complements and per-word class vectors through 8 iterators and 6 GetN forms under thresholds 0/2/9/64; Set/Unset over int16/int32 indices; algebra on all pairs of a subfamily. Boolean-array model.",
+   note="structured families instead of all 2^64 / 2^1024 values; hook VerifSetSparseMagic (overlay) forwards to the internal setter"),
 }
 NA = {}
 
